@@ -6,6 +6,7 @@ import (
 	"encoding/json"
 	"fmt"
 	"io"
+	"runtime/debug"
 
 	"simlal/sim"
 	"simlal/sim/rtmpc"
@@ -81,6 +82,8 @@ func genC08Plan(r *sim.Rng, tier string) ChunkPlan {
 	csids := []int{2 + r.Intn(62), 2 + r.Intn(62), 64 + r.Intn(256), 320 + r.Intn(65280), 3, 4, 63, 64, 319, 320, 65599}
 	nStreams := 1 + r.Intn(4)
 	lastTs := map[int]uint32{}
+	lastSpec := map[int]ChunkMsgSpec{}
+	prevTs2 := map[int]uint32{}
 	for i := 0; i < n; i++ {
 		if r.Bool(0.08) {
 			cs = []int{1, 2, 97, 128, 4096, 65536, 100000}[r.Intn(7)]
@@ -98,6 +101,20 @@ func genC08Plan(r *sim.Rng, tier string) ChunkPlan {
 		} else {
 			m.Ts = tsChoice(r)
 		}
+		if prev, ok := lastSpec[csid]; ok && r.Bool(0.12) {
+			// a repeat of the previous message's shape: lets the encoder start the message with a format-3 chunk,
+			// either repeating the previous delta or (after a format-0 header) with ts = 2 x previous ts
+			m.Type, m.Msid, m.Len = prev.Type, prev.Msid, prev.Len
+			if pp, ok2 := prevTs2[csid]; ok2 && r.Bool(0.5) && prev.Ts >= pp {
+				m.Ts = prev.Ts + (prev.Ts - pp)
+			} else if prev.Ts < 0x7FFFFF {
+				m.Ts = 2 * prev.Ts
+			}
+		}
+		if ls, ok := lastSpec[csid]; ok {
+			prevTs2[csid] = ls.Ts
+		}
+		lastSpec[csid] = m
 		lastTs[csid] = m.Ts
 		if r.Bool(0.06) {
 			m.Type = 22
@@ -178,6 +195,7 @@ func execChunk(k *sim.Kernel, pl ChunkPlan) {
 	// ---------- decode side: reference encoder -> lal ChunkComposer
 	w := rtmpc.NewWriter()
 	w.AlwaysFmt0 = pl.Fmt0
+	w.Fmt3AfterFmt0 = true
 	var expect []expMsg
 	var endOffsets []int // byte offset after which expect[i] is complete
 	var wire []byte
@@ -335,6 +353,15 @@ func init() {
 		Run: func(k *sim.Kernel, plan json.RawMessage) {
 			var pl ChunkPlan
 			fromJSON(plan, &pl)
+			k.Mix(string(plan))
+			defer func() {
+				if r := recover(); r != nil {
+					if sim.IsAbort(r) {
+						panic(r)
+					}
+					k.Violate("C08.panic", "lal's codec panicked on this input: %v\n%s", r, debug.Stack())
+				}
+			}()
 			execChunk(k, pl)
 		},
 		Shrink: func(plan json.RawMessage) []json.RawMessage {
